@@ -40,7 +40,7 @@ func ReadUntilSemiColon(r *bufio.Reader) (string, error) {
 			i := len(ln) - 1
 			lastChar = ln[i]
 			// Test what last non-space character of the line is
-			for (lastChar == ' ' || lastChar == '\t') && i >= 0 {
+			for (lastChar == ' ' || lastChar == '\t') && i > 0 {
 				i--
 				lastChar = ln[i]
 			}
